@@ -73,3 +73,25 @@ Proof.
   destruct (linear_extrude [Pt2 0%Q 0%Q; Pt2 0%Q 1%Q; Pt2 1%Q 1%Q; Pt2 1%Q 0%Q] 1%Q) as [ph|] eqn:E; [|vm_compute in E; discriminate].
   exists ph. split; [reflexivity|]. eapply linear_extrude_closed; eassumption.
 Qed.
+
+(* ---- the exact form for the two-ring builders: mcnt u v F = number of faces of F that use the directed edge u -> v.
+        Every directed edge is used by at most one face and by exactly as many faces as its reverse: each edge of the
+        surface lies in exactly one face one way and in exactly one other face the other way. (linear_extrude, loft,
+        cylinder -- hence also every edge cylinder of the Viewer -- for every profile length) ---- *)
+From SCAD Require Import Geom.Mesh_exact.
+Theorem C04_linear_extrude_exact {T} `{Num T} : forall (pts : list (pt2 T)) (h : T) ph, linear_extrude pts h = Some ph ->
+  complete (rev (enumerate pts)) -> complete (enumerate pts) ->
+  forall u v, (mcnt u v (snd ph) <= 1)%nat /\ mcnt u v (snd ph) = mcnt v u (snd ph).
+Proof. exact (@linear_extrude_closed_exact T H). Qed.
+Theorem C04_loft_exact {T} `{Num T} : forall (lower upper : list (pt2 T)) (h : T) ph, loft lower upper h = Some ph ->
+  complete (rev (enumerate lower)) -> complete (enumerate upper) ->
+  forall u v, (mcnt u v (snd ph) <= 1)%nat /\ mcnt u v (snd ph) = mcnt v u (snd ph).
+Proof. exact (@loft_closed_exact T H). Qed.
+Theorem C04_cylinder_exact {T} `{Num T} : forall (r h : T) (segments : Z) ph c, cylinder r h segments = Some ph -> circle r segments = Some c ->
+  complete (rev (enumerate c)) -> complete (enumerate c) ->
+  forall u v, (mcnt u v (snd ph) <= 1)%nat /\ mcnt u v (snd ph) = mcnt v u (snd ph).
+Proof. exact (@cylinder_closed_exact T H). Qed.
+(* the strip of quads between two disjoint rings uses every directed edge at most once *)
+Theorem C04_strip_exact : forall u v (k : nat) ra rb, (1 <= k)%nat -> (ra + Z.of_nat k <= rb)%Z ->
+  (mcnt u v (map (quad (Z.of_nat k) ra rb) (nseq k)) <= 1)%nat.
+Proof. intros u v k ra rb Hk Hd. exact (proj1 (strip_cnt u v k ra rb Hk Hd)). Qed.
